@@ -161,9 +161,9 @@ theorem C05_setup (p : Policy) (s : Setup)
   exact List.contains_iff_mem.mp this
 
 /-- **C05 (size)**: a counterparty commitment is signed only for a channel within the maximum size. -/
-theorem C05_size (p : Policy) (s : Setup) (c : ChainState) (e e' : EState) (n point : Nat) (i : Info)
+theorem C05_size (p : Policy) (s : Setup) (c : ChainState) (e e' : EState) (n point : Nat) (i : Info) (ph1 : Bool)
     (hf : errs p .fundingMax = true)
-    (h : signCounterparty p s c e n point i = .ok e') : s.channelValue ≤ p.maxChannelSize := by
+    (h : signCounterparty p s c e n point i ph1 = .ok e') : s.channelValue ≤ p.maxChannelSize := by
   unfold signCounterparty at h
   obtain ⟨_, h1, _⟩ := bind_ok h
   have := of_decide_eq_false (check_ok h1 hf)
@@ -253,7 +253,7 @@ theorem C05_onchain_holder_retry_same (p : Policy) (s : Setup) (c : ChainState) 
 /-- the phase-2 entry points return `Ok` only if the validator accepted (so the theorems above speak
     about `sign_counterparty_commitment_tx_phase2` / `validate_holder_commitment_tx_phase2`) -/
 theorem C05_entry_counterparty (p : Policy) (s : Setup) (c : ChainState) (e e' : EState) (n point : Nat) (i : Info)
-    (hcp : i.isCp = true) (h : signCounterparty p s c e n point i = .ok e') :
+    (ph1 : Bool) (hcp : i.isCp = true) (h : signCounterparty p s c e n point i ph1 = .ok e') :
     validateCommitment p s c e n i point = .ok () := by
   unfold signCounterparty at h
   obtain ⟨_, _, h⟩ := bind_ok h
@@ -351,7 +351,7 @@ example : validateCommitment (testnetPolicy true) exSetup ⟨1000, 3, 0⟩ { ESt
 example : validateCommitment (testnetPolicy true) exSetup ⟨1000, 0, 0⟩ { EState.init with nextCp := 1, curCpPoint := some 0 } 1 exInfo 2 = .error .chain := by
   rfl
 example : setupChannel (testnetPolicy false) exSetup = .ok () := by rfl
-example : ∃ e', signCounterparty (testnetPolicy false) exSetup ⟨1000, 0, 0⟩ { EState.init with nextCp := 1, curCpPoint := some 0 } 1 2 exInfo = .ok e' :=
+example : ∃ e', signCounterparty (testnetPolicy false) exSetup ⟨1000, 0, 0⟩ { EState.init with nextCp := 1, curCpPoint := some 0 } 1 2 exInfo false = .ok e' :=
   ⟨_, rfl⟩
 
 end VlsModel.Props.C05
